@@ -124,7 +124,7 @@ func runC14(r *Run, p *Prog) {
 			r.Ob("L1", fn, "the deferred closure resets the state exactly once on every path", cl.Pos(), lo == 1 && hi == 1, fmt.Sprintf("reset executed between %d and %d times", lo, hi))
 			isWait := func(in ssa.Instruction) bool {
 				c, ok := in.(*ssa.Call)
-				return ok && calleeName(&c.Call) == "sync.WaitGroup.Wait" && T.T(c.Call.Args[0]) == wgT
+				return ok && calleeName(&c.Call) == "sync.WaitGroup.Wait" && strip(T.T(c.Call.Args[0])) == strip(wgT)
 			}
 			// Wait after the reset on every path
 			var resetCall ssa.Instruction
@@ -247,7 +247,7 @@ func runC14(r *Run, p *Prog) {
 		}
 		// census of counter writers
 		H := cg.Reach(keysOf(handlers), false)
-		S := fnSet(ro.Serving)
+		S := ro.servingSide()
 		for _, f := range p.FuncsOf(pkgVarlink) {
 			for _, b := range f.Blocks {
 				for _, in := range b.Instrs {
